@@ -208,6 +208,10 @@ func (t *WSTransport) getOrDial(ctx context.Context, opts common.Options) (*wsCo
 		}
 
 		if result.err != nil {
+			if ctx.Err() == nil && errors.Is(result.err, context.Canceled) {
+				// the dialling subscriber went away; that is not our failure: dial again
+				return t.getOrDial(ctx, opts)
+			}
 			return nil, result.err
 		}
 
